@@ -2,6 +2,7 @@ use crate::rt::{PropSpec, Tier};
 
 pub mod c03;
 pub mod c14;
+pub mod c19;
 
 pub fn shards_16(_t: Tier) -> usize {
     16
@@ -14,5 +15,5 @@ pub fn shards_1(_t: Tier) -> usize {
 }
 
 pub fn registry() -> Vec<PropSpec> {
-    vec![c03::spec(), c14::spec()]
+    vec![c03::spec(), c14::spec(), c19::spec()]
 }
